@@ -4,3 +4,9 @@ open GrVerif.Props.C02
 #print axioms insert_respects_budget
 #print axioms pass_range_growth
 #print axioms code_runs_each_instruction_once
+#print axioms every_opcode_keeps_loop_measure
+#print axioms rule_action_does_not_grow_measure
+#print axioms rule_loop_is_bounded
+#print axioms pass_stays_within_loop_bound
+#print axioms pipeline_stays_within_loop_bound
+#print axioms fuel_is_never_the_reason
